@@ -110,6 +110,16 @@ pub fn fresh_with_pool(b: &Branch, r: &mut Rng, pool: &[u64]) -> Bits {
 /// the turn of the millennium and its leap day, the end of 32-bit Unix time
 pub const EPOCH_DATES: [(u64, u64, u64); 10] = [(1970, 1, 1), (1980, 1, 6), (1999, 8, 21), (1999, 8, 22), (1999, 12, 31), (2000, 1, 1), (2000, 2, 29), (2019, 4, 6), (2019, 4, 7), (2038, 1, 19)];
 
+/// one of the few values every field has: 0, 1, both extremes, mid-range, own sentinel +- 1
+pub fn core_value(key: &str, width: usize, r: &mut Rng) -> u64 {
+    let max = if width >= 64 { u64::MAX } else { (1u64 << width) - 1 };
+    let mut v: Vec<u64> = vec![0, 0, 1, max, max - 1, max / 2, max / 2 + 1];
+    if let Some(s) = super::c11::sentinel_of(key, width) {
+        v.extend_from_slice(&[s, s, s.wrapping_sub(1) & max, (s + 1) & max]);
+    }
+    *r.pick(&v)
+}
+
 /// Corner sampler shared by the message-level checks: every field of a branch independently
 /// takes one of its notable values (3 in 4) or a random value; any coupling between a handful of
 /// fields at notable values is met many times over. `prop`: the property whose fields are owned.
@@ -141,7 +151,11 @@ pub fn corner_sampler(ctx: &Ctx, rep: &mut Report, pid: &str, prop: Prop, r: &mu
                     continue;
                 }
                 if r.chance(3, 4) {
-                    bits.put(f.start as usize, f.width as usize, *r.pick(nv));
+                    // half of the notable picks come from the short core list (0, 1, extremes, the
+                    // field's own sentinel and neighbours), so that corners of several wide fields
+                    // are met together even though their full lists are long
+                    let v = if r.bool() && nv.len() > 12 { core_value(f.key, f.width as usize, r) } else { *r.pick(nv) };
+                    bits.put(f.start as usize, f.width as usize, v);
                 }
             }
             // one sample in eight carries a well-known date in its year / month / day fields
